@@ -88,6 +88,10 @@ func Init() (err error) {
 	// instead of inheriting a restrictive host/service umask.
 	syscall.Umask(0)
 
+	// do not hand the supplementary groups of the process that built the container
+	// down to the programs (refused with EPERM where the user namespace denies setgroups)
+	syscall.Setgroups(nil)
+
 	// limit container resource usage
 	runtime.GOMAXPROCS(containerMaxProc)
 
